@@ -129,6 +129,8 @@ class LogicBlock(SystemWideDevice, ModeDevice):
     def device_removed_from_mode(self, mode: Mode):
         """Unset internal state to prevent leakage."""
         super().device_removed_from_mode(mode)
+        # a pending timeout would fire after the mode is gone and crash on the unset state
+        self.delay.remove("timeout")
         self._state = None
 
     @property
